@@ -16,6 +16,7 @@ import vlib
 from vlib import ostr, flit, fme
 from props import c01, c02
 
+EXTRA_TARGETS = ['Iso/AccessShow.vo']
 MANIFEST = dict(
     text="Machine-checked (Coq 8.16) theorems about a hand-written Gallina model of PointIsotherm.data/pressure/loading/loading_at/pressure_at "
          "(Iso/IsoAccess.v) that calls the converters GENERATED from the source: for every stored and requested representation, every branch and "
@@ -218,7 +219,7 @@ def named_full(q):
 
 
 def run(rep, tier, seed):
-    vlib.standard_proof_phase(rep, 'C03', extra_targets=['Iso/AccessShow.vo'])
+    vlib.standard_proof_phase(rep, 'C03', extra_targets=EXTRA_TARGETS)
     explore(rep, tier, seed)
     if rep.broken and not rep.violations and tier != 'thorough':
         explore(rep, 'thorough', seed + 1)
